@@ -113,7 +113,9 @@ def tiny_schema():
 
 
 COND = {"none": [], "skipA": [("skip", G.v_var("a"))], "includeA": [("include", G.v_var("a"))], "skipB": [("skip", G.v_var("b"))],
-        "includeB": [("include", G.v_var("b"))], "skipTrue": [("skip", {"k": "bool", "v": True})], "includeFalse": [("include", {"k": "bool", "v": False})]}
+        "includeB": [("include", G.v_var("b"))], "skipTrue": [("skip", {"k": "bool", "v": True})], "includeFalse": [("include", {"k": "bool", "v": False})],
+        # two variable-driven conditions on ONE selection: excluded if any @skip is true or any @include is false
+        "includeAskipB": [("include", G.v_var("a")), ("skip", G.v_var("b"))], "skipAincludeA": [("skip", G.v_var("a")), ("include", G.v_var("a"))]}
 FRAG_TEXT = {"FN": ("N", lambda: [G.field("id"), G.inline([G.field("v")], "A", [])]),
              "FA": ("A", lambda: [G.field("v"), G.field("o", sel=[G.field("id")])])}
 
